@@ -26,6 +26,8 @@ func init() {
 			"Path (b), 1 of 4 cases: node family B (recursion through slices, arrays, maps, interfaces only) through dials.Config + View, with the graph in the defaults, in static source values, " +
 			"in a watching source's value and in 1..2 blocking re-stacks. Every result is judged by reflect.DeepEqual against the expectation, by the identity-bijection walk (split/merge) over pointer- and map-typed " +
 			"struct fields, slice/array elements and map values, and by identity-set disjointness from every input (freshness: pointers, maps incl. empty non-nil ones, slice backing arrays with cap>0, interface-held ones included). " +
+			"Every node also has exported dials:\"-\" fields (Skip *Node, SkipM map, SkipS slice, SkipAny any) populated like any other edge: sources cannot set them, defaults and nested nodes carry them through every copy, and they are judged like any other location. " +
+			"Interface payloads include overlapping windows of one backing array ([]*Node views Backs[i][lo:hi] and []any views: same start/different length, different start, same header twice); deep equality is judged for them, what their copies share is only counted. " +
 			"Empty non-nil maps and zero-length slices with spare capacity are generated in every position (struct field, map value, []any element, interface payload). " +
 			"A case is distinct and non-trivial when its judged graph contains a reference cycle or a pointer/map identity referenced from >=2 locations; signature = path + entry/scenario + plan JSON. " +
 			"Not generated (kept to the fixed corpus or out of scope): a []any that reaches itself without passing a pointer or map; two layers that both set Any with a pointer/struct/scalar payload. " +
@@ -53,6 +55,21 @@ func init() {
 		},
 		Run: runC03,
 	})
+}
+
+// c03Viol records a violation, but stops handing a key to the framework once
+// it was reported 8 times by this worker (the framework keeps 5 per key and
+// re-writes its violation file on every call; a broken copier fails
+// thousands of cases and must not turn the run into a timeout).
+var c03ViolSeen = map[string]int{}
+
+func c03Viol(w *fw.Worker, i int, key, detail string, witness any) {
+	c03ViolSeen[key]++
+	if c03ViolSeen[key] > 8 {
+		w.Count("violations_beyond_per_key_cap", 1)
+		return
+	}
+	w.Violation(i, key, detail, witness)
 }
 
 func c03JSON(v any) string {
@@ -133,7 +150,7 @@ func c03RunDeepCopy(w *fw.Worker, i int, p *c03Plan, entry int, fixedName string
 	w.Count("a_graphs", 1)
 	w.SetAdd("a_entry_shapes", c03EntryNames[entry])
 	if !out.IsValid() || out.Type() != inV.Type() {
-		w.Violation(i, "wrong-result-type:deepcopy", fmt.Sprintf("VerifDeepCopy(%s) returned %v", inV.Type(), out), map[string]any{"plan": p, "entry": c03EntryNames[entry], "fixed": fixedName})
+		c03Viol(w, i, "wrong-result-type:deepcopy", fmt.Sprintf("VerifDeepCopy(%s) returned %v", inV.Type(), out), map[string]any{"plan": p, "entry": c03EntryNames[entry], "fixed": fixedName})
 		return
 	}
 	c03Judge(w, i, "deepcopy", expV, out, []reflect.Value{inV}, exp, map[string]any{"plan": p, "entry": c03EntryNames[entry], "fixed": fixedName},
@@ -147,7 +164,7 @@ func c03Judge(w *fw.Worker, i int, where string, exp, out reflect.Value, ins []r
 	ok := true
 	// (1) deep equality, by the standard library
 	if !reflect.DeepEqual(exp.Interface(), out.Interface()) {
-		w.Violation(i, "not-deep-equal:"+where, "result is not reflect.DeepEqual to what was supplied", witness)
+		c03Viol(w, i, "not-deep-equal:"+where, "result is not reflect.DeepEqual to what was supplied", witness)
 		ok = false
 	}
 	// (2) identity bijection
@@ -177,7 +194,7 @@ func c03Judge(w *fw.Worker, i int, where string, exp, out reflect.Value, ins []r
 			// one class whatever the step and the reference kind
 			key = strings.SplitN(iso.err.Kind, ":", 2)[0] + ":" + c03TwoLayers
 		}
-		w.Violation(i, key, iso.err.String(), wit)
+		c03Viol(w, i, key, iso.err.String(), wit)
 		ok = false
 	}
 	// (3) freshness
@@ -197,7 +214,7 @@ func c03Judge(w *fw.Worker, i int, where string, exp, out reflect.Value, ins []r
 		for k, v := range witness {
 			wit[k] = v
 		}
-		w.Violation(i, "not-fresh:"+hit.Label+":"+where, "result is not fresh: "+hit.Detail, wit)
+		c03Viol(w, i, "not-fresh:"+hit.Label+":"+where, "result is not fresh: "+hit.Detail, wit)
 		ok = false
 	}
 	// evidence about the judged graph (the expectation is isomorphic to the input)
@@ -212,6 +229,10 @@ func c03Judge(w *fw.Worker, i int, where string, exp, out reflect.Value, ins []r
 	w.Count("typed_nil_pointers_in_interfaces", int64(ew.typedNilIface))
 	w.Count("empty_non_nil_maps", int64(ew.emptyMaps))
 	w.Count("zero_length_slices_with_capacity", int64(ew.spareSlices))
+	// overlapping views of one backing array: what their copies share is not
+	// in the statement; observed only
+	w.Count("overlapping_slice_views_in_inputs", int64(ew.overlappingSpans()))
+	w.Count("overlapping_slice_views_in_results", int64(ow.overlappingSpans()))
 	w.Count("interface_held_refs_in_inputs", int64(ew.ifaceHeldRefs))
 	for f := range ew.feats {
 		w.SetAdd("features", f)
@@ -465,12 +486,12 @@ func c03RunScenario(w *fw.Worker, i int, sc *c03Scenario, fixedName string) {
 	d, err := dials.Config(ctx, defPtr, sources...)
 	for _, f := range fakes {
 		if f.err != nil {
-			w.Violation(i, "harness:source-value", f.err.Error(), witness)
+			c03Viol(w, i, "harness:source-value", f.err.Error(), witness)
 			return
 		}
 	}
 	if err != nil {
-		w.Violation(i, "config-error", "dials.Config returned an error for a well-formed graph: "+err.Error(), witness)
+		c03Viol(w, i, "config-error", "dials.Config returned an error for a well-formed graph: "+err.Error(), witness)
 		return
 	}
 	inputs := func() []reflect.Value {
@@ -482,7 +503,7 @@ func c03RunScenario(w *fw.Worker, i int, sc *c03Scenario, fixedName string) {
 	}
 	judge := func(step string, view *c03BNode) bool {
 		if view == nil {
-			w.Violation(i, "nil-view:"+step, "View returned nil", witness)
+			c03Viol(w, i, "nil-view:"+step, "View returned nil", witness)
 			return false
 		}
 		exp, eb := c03Expect(sc.Defaults, cur)
@@ -500,12 +521,12 @@ func c03RunScenario(w *fw.Worker, i int, sc *c03Scenario, fixedName string) {
 			b := c03Build(up.Plan)
 			v, verr := c03SourceValue(watcher.typ.Type(), up, b)
 			if verr != nil {
-				w.Violation(i, "harness:source-value", verr.Error(), witness)
+				c03Viol(w, i, "harness:source-value", verr.Error(), witness)
 				break
 			}
 			watcher.given = append(watcher.given, v)
 			if rerr := watcher.args.BlockingReportNewValue(ctx, v); rerr != nil {
-				w.Violation(i, "restack-error", "BlockingReportNewValue returned an error for a well-formed graph: "+rerr.Error(), witness)
+				c03Viol(w, i, "restack-error", "BlockingReportNewValue returned an error for a well-formed graph: "+rerr.Error(), witness)
 				break
 			}
 			cur[sc.Watch] = up
@@ -564,7 +585,8 @@ func c03AnySetters(cur []*c03SrcPlan) int {
 
 func (p *c03Plan) hasRefs() bool {
 	n := p.Nodes[0]
-	return n.Kids != nil || n.M >= 0 || n.MM >= 0 || n.Leaf >= 0 || (n.Any.K != "" && n.Any.K != "nil") || n.Pair != [2]int{-1, -1} || n.Pairs != nil
+	return n.Kids != nil || n.M >= 0 || n.MM >= 0 || n.Leaf >= 0 || (n.Any.K != "" && n.Any.K != "nil") || n.Pair != [2]int{-1, -1} || n.Pairs != nil ||
+		n.Skip >= 0 || n.SkipM >= 0 || n.SkipS != nil || (n.SkipAny.K != "" && n.SkipAny.K != "nil")
 }
 
 // ---------------------------------------------------------------------------
@@ -651,7 +673,7 @@ func c03RunIsolated(w *fw.Worker, idx int, fc *c03FixedCase) {
 		}
 		w.Count("distinct_by_construction", int64(len(res.Distinct)))
 		for _, v := range res.Violations {
-			w.Violation(idx, v.Key, "[fixed case "+fc.Name+"] "+v.Detail, v.Witness)
+			c03Viol(w, idx, v.Key, "[fixed case "+fc.Name+"] "+v.Detail, v.Witness)
 		}
 		if len(res.Violations) == 0 {
 			w.Count("fixed_cases_held", 1)
@@ -682,5 +704,5 @@ func c03RunIsolated(w *fw.Worker, idx int, fc *c03FixedCase) {
 	} else {
 		wit["plan"] = fc.Plan
 	}
-	w.Violation(idx, key, fmt.Sprintf("[fixed case %s] worker process died: %s (innermost dials frame %s)", fc.Name, line, fw.TopDialsFrame(text)), wit)
+	c03Viol(w, idx, key, fmt.Sprintf("[fixed case %s] worker process died: %s (innermost dials frame %s)", fc.Name, line, fw.TopDialsFrame(text)), wit)
 }
